@@ -62,9 +62,12 @@ def frame(lv, holes=False):
     if key not in _FR:
         d = dict(zip(["f", "f2", "g", "h", "k"], lv))
         df = frames.factorial(d, reps=2, seed=_SEED)
-        if holes:  # not fully crossed any more: block clause only
+        if holes:  # not fully crossed any more (some g:h and g:k cells are empty): block clause only
             keep = [i for i in range(len(df)) if (i * 7 + _SEED) % 3 != 0]
-            df = df.iloc[keep].reset_index(drop=True)
+            df = df.iloc[keep]
+            gl, hl = sorted(set(df["g"])), sorted(set(df["h"]))
+            df = df[~((df["g"] == gl[0]) & (df["h"] == hl[-1])) & ~((df["g"] == gl[-1]) & (df["h"] == hl[0]))]
+            df = df.reset_index(drop=True)
         _FR[key] = df
     return _FR[key]
 
